@@ -2,5 +2,6 @@
 Require Import ExtrOcamlBasic ExtrOcamlNativeString.
 Require Import MPSV.ParseTotal.Tokenizer MPSV.ParseTotal.OptionLine.
 Extraction "../ocaml/ptotal.ml"
-  skip_comments skip_comments_fixed tokens_stream parse_option_line parse_option_line_fixed
+  skip_comments skip_comments_fixed tokens_stream tokens_stream_cur
+  parse_option_line parse_option_line_fixed
   raise_parsing_error raise_parsing_error_fixed mps_error mps_error_fixed garbage.
